@@ -500,8 +500,12 @@ static int notify_fetching_peer(const struct element *e, const struct fetch *f,
 	const struct peer *p = f->peer;
 	if (unlikely(p->send_message(p, rendered_message,
 	                             strlen(rendered_message)) != 0)) {
-		cjet_free(rendered_message);
-		goto error;
+		/*
+		 * A fetching peer that cannot be reached (full send path, broken socket) harms
+		 * only itself: the request that caused the event still takes effect and the
+		 * remaining fetchers are still notified.
+		 */
+		log_peer_err(p, "Could not send %s event for %s\n", event_name, e->path);
 	}
 
 	cJSON_Delete(root);
